@@ -5,6 +5,7 @@
    Is* methods on every run.  The encoders' bytes are compared with the model byte for byte by the
    wire suite. *)
 From Coq Require Import List NArith ZArith String Ascii Bool Permutation.
+From DT Require CanonIdem.
 From DT Require Import Cbor CborProofs GenSchema GenMsgType GenPred Wire C12Proofs.
 From DT Require Msg.
 Import ListNotations.
@@ -84,3 +85,10 @@ Theorem C12_validation_response_acceptance :
     Msg.g_accepted (Msg.validation_result_response t tid vr err paused) = (negb err && Msg.vr_accepted vr).
 Proof. exact validation_response_acceptance. Qed.
 Print Assumptions C12_validation_response_acceptance.
+
+(* the data-model value a payload stands for is a fixed point of encoding and decoding: a payload
+   that went through the wire once goes through it unchanged ever after *)
+Theorem C12_canonical_form_is_fixed_point :
+  forall n, wf n -> decode (encode (canon n)) = Some (canon n).
+Proof. exact CanonIdem.canonical_form_is_fixed_point. Qed.
+Print Assumptions C12_canonical_form_is_fixed_point.
